@@ -27,19 +27,40 @@
      in it ([find_iq], an oracle: text before the quantity, text after it): the text before, an inline
      quantity item (numbered in document order), and so on with the rest.
    Not covered by [denote] (excluded by [adoc_ok]): mode switches (`>> [mode]: ..`).
-   The recipe structure of Model/Analysis.v keeps of a quantity whether it is text, whether it is fixed, and
-   its unit; the numbers themselves are compared at event level (denote_qty in Model/Printer.v, theorem
-   C01_events_roundtrip): the collector copies them unchanged (event_consumer.rs 1030-1070). *)
+   The recipe structure of Model/Analysis.v keeps of a quantity its value, whether it is text, whether it is
+   fixed, and its unit.  The value is stated here from the document ([value_of] of the printer's document
+   value, Model/Printer.v [denote_value]: the decimal written, exactly; `w a/b` as w + a/b; both ends of a
+   range; the cleaned text), so the recipe-level round trip covers the numbers, not only the event-level one
+   (C01_events_roundtrip). *)
 From CL Require Export Model.Printer.
 From CL Require Model.Events Model.Analysis.
 
 Definition is_text_value (v : value) : bool := match v with VText _ => true | _ => false end.
 
+(* the number a written number stands for: a decimal literal `12.50` is that decimal, exactly ([NReg q]
+   holds it: Model/Printer.v [denote_num], [dec_q]); `w a/b` is w + a/b (the printer only writes b <> 0:
+   [num_wf]; N.succ_pos (N.pred b) is b as a positive then) *)
+Definition num_value (n : num) : Q :=
+  match n with
+  | NReg q => q
+  | NFrac w a b => Qplus (inject_Z (Z.of_N w)) (Qmake (Z.of_N a) (N.succ_pos (N.pred b)))
+  end.
+
+(* the value of a quantity as the recipe holds it: a number, a range with its two ends in the order
+   written, or the text *)
+Definition value_of (v : value) : Events.pvalue :=
+  match v with
+  | VNum n => Events.VNumber (num_value n)
+  | VRange a b => Events.VRange (num_value a) (num_value b)
+  | VText s => Events.VText s
+  end.
+
 Definition qinfo_of (igr keep_unit : bool) (q : value * bool * option str) : Analysis.qinfo :=
   let '(v, lock, u) := q in
   {| Analysis.qi_text := is_text_value v;
      Analysis.qi_fixed := negb (igr && negb (is_text_value v) && negb lock);
-     Analysis.qi_unit := if keep_unit then u else None |}.
+     Analysis.qi_unit := if keep_unit then u else None;
+     Analysis.qi_value := value_of v |}.
 
 Definition is_igr (c : cspec) : bool := match cs_kind c with CIgr => true | _ => false end.
 Definition is_cw (c : cspec) : bool := match cs_kind c with CCw => true | _ => false end.
